@@ -101,27 +101,29 @@ type Decision struct {
 	// text that url.ParseQuery rejects); their ground truth is ParseQueryLenient
 	RawPairs   []string
 	AltPath    bool // the next link points to the sibling path of the request path (".../~p" <-> plain)
+	Redirect   bool // answer the request with a 307 to the sibling path <path>/~p first (one hop)
 	PreFirst   int  // 0: none; 1: a rel="first" link-value BEFORE the next link in the same line; 2: in a header line of its own before it
 	NoProgress bool // internal: set when RawLink is used (no ground truth for the target)
 }
 
 // Exchange is one logged request/response pair.
 type Exchange struct {
-	Kind    byte // 'T' tags, 'K' catalog, 'R' referrers, 'M' manifest
-	Repo    string
-	Path    string     // request path
-	Query   url.Values // request query as received
-	Dec     Decision
-	Status  int
-	Page    []Item   // items in the body (after server-side filtering)
-	Unfilt  []Item   // the page before filtering
-	More    bool     // items remain after this page
-	Link    string   // first Link header line ("" = absent): what http.Header.Get returns
-	Links   []string // all Link header lines
-	HasLink bool     // a well-formed link with ground truth was issued
-	Text    string   // the text between '<' and '>' of the NEXT link
-	TPath   string   // intended next target path
-	TQuery  []KV     // intended next target query (pair order)
+	Kind     byte // 'T' tags, 'K' catalog, 'R' referrers, 'M' manifest
+	Repo     string
+	Path     string     // request path
+	SentPath string     // the path the client asked for (differs from Path after Decision.Redirect)
+	Query    url.Values // request query as received
+	Dec      Decision
+	Status   int
+	Page     []Item   // items in the body (after server-side filtering)
+	Unfilt   []Item   // the page before filtering
+	More     bool     // items remain after this page
+	Link     string   // first Link header line ("" = absent): what http.Header.Get returns
+	Links    []string // all Link header lines
+	HasLink  bool     // a well-formed link with ground truth was issued
+	Text     string   // the text between '<' and '>' of the NEXT link
+	TPath    string   // intended next target path
+	TQuery   []KV     // intended next target query (pair order)
 	// ground truth of the first link-value of the first line when that is NOT the next link (PreFirst)
 	PreText  string
 	PreQuery []KV
@@ -177,10 +179,12 @@ type Registry struct {
 	// NoReferrersAPI makes the referrers endpoint answer 404 (code NOT_FOUND), like a registry without it
 	NoReferrersAPI bool
 	// Decide is the split oracle; x has Kind, Repo, Path and Query filled in.
-	Decide      func(x *Exchange) Decision
-	Log         []*Exchange
-	MaxRequests int               // safety against servers that make no progress (then 508)
-	Fallback    http.RoundTripper // other paths
+	Decide         func(x *Exchange) Decision
+	Log            []*Exchange
+	Redirects      int // redirect hops issued
+	redirectedFrom string
+	MaxRequests    int               // safety against servers that make no progress (then 508)
+	Fallback       http.RoundTripper // other paths
 }
 
 // New returns an empty registry with a large cap and one-page answers.
@@ -286,6 +290,21 @@ func (r *Registry) RoundTrip(req *http.Request) (*http.Response, error) {
 	}
 	d := r.Decide(x)
 	x.Dec = d
+	x.SentPath = x.Path
+	if r.redirectedFrom != "" {
+		x.SentPath, r.redirectedFrom = r.redirectedFrom, ""
+	} else if d.Redirect && !alt {
+		// one redirect hop to the sibling path: the answer (and the base of its relative links)
+		// then belongs to a URL other than the one the client asked for
+		r.Log = r.Log[:len(r.Log)-1]
+		r.redirectedFrom = x.Path
+		r.Redirects++
+		loc := url.URL{Scheme: r.Scheme, Host: r.Host, Path: x.Path + "/~p", RawQuery: req.URL.RawQuery}
+		h := http.Header{}
+		h.Set("Location", loc.String())
+		return &http.Response{Status: "307 Temporary Redirect", StatusCode: 307, Proto: "HTTP/1.1", ProtoMajor: 1, ProtoMinor: 1,
+			Header: h, Body: http.NoBody, Request: req}, nil
+	}
 	if d.Status != 0 && d.Status != http.StatusOK {
 		code := d.ErrorCode
 		if code == "" {
